@@ -18,23 +18,24 @@ import (
 )
 
 type Engine struct {
-	repo      string
-	fset      *token.FileSet
-	pkgs      []*packages.Package
-	prog      *ssa.Program
-	spkgs     []*ssa.Package
-	u         *Universe
-	contracts *Contracts
-	funcs     map[string]*ssa.Function
-	fnKeys    map[*ssa.Function]string
-	effects   map[*ssa.Function]map[string]bool
-	sigFuncs  map[string][]*ssa.Function // address-taken functions by signature string
-	files     map[string]*ast.File       // by filename
-	src       map[string][]byte
-	typeCache map[string]types.Type
-	arrInvKeys map[string]bool
+	calledCache  map[*ssa.Function]bool
+	repo         string
+	fset         *token.FileSet
+	pkgs         []*packages.Package
+	prog         *ssa.Program
+	spkgs        []*ssa.Package
+	u            *Universe
+	contracts    *Contracts
+	funcs        map[string]*ssa.Function
+	fnKeys       map[*ssa.Function]string
+	effects      map[*ssa.Function]map[string]bool
+	sigFuncs     map[string][]*ssa.Function // address-taken functions by signature string
+	files        map[string]*ast.File       // by filename
+	src          map[string][]byte
+	typeCache    map[string]types.Type
+	arrInvKeys   map[string]bool
 	mapFrameKeys map[string]map[string]bool
-	mapInvKeys map[string]bool
+	mapInvKeys   map[string]bool
 }
 
 const repoMod = "github.com/tyler-sommer/stick"
@@ -541,8 +542,9 @@ func (e *Engine) mapKeys(t types.Type) (md, mv, ks, vs string) {
 }
 
 // baseClass classifies the object a pointer value denotes, relative to function f:
-//   "#P<i>"  parameter i of f        "#FV<k>" free variable k of closure f
-//   "#FRESH" allocated by f (or by a callee that returns a fresh object)        "" unknown
+//
+//	"#P<i>"  parameter i of f        "#FV<k>" free variable k of closure f
+//	"#FRESH" allocated by f (or by a callee that returns a fresh object)        "" unknown
 func (e *Engine) baseClass(f *ssa.Function, v ssa.Value) string {
 	switch x := v.(type) {
 	case *ssa.Parameter:
